@@ -647,6 +647,59 @@ def typeAndNotify (u : SUnit) (sec : Str) (cmd : List Str) (svc : SUnit) : R (Li
     else .error (Err.invalidServiceType t)
   | none => .ok notify
 
+/-- the head of the command: podman, global options, `run`, the name, the fixed options, the log options, the cgroups
+    mode and then the three key tables in table order -/
+def containerHead (E : Env) (path : Str) (u : SUnit) (sec : Str) : List Str :=
+  baseCmd E u sec ++ [s "run", s "--name", containerName (fileName path) u, s "--cidfile=%t/%N.cid", s "--replace", s "--rm"]
+    ++ logDriver u sec ++ logOpt u sec
+    ++ [s "--cgroups", match lookup u sec (s "CgroupsMode") with | some c => if c.isEmpty then s "split" else c | none => s "split"]
+    ++ addString u sec Gen.tbl_from_container_unit_string_keys
+    ++ addAllStrings u sec Gen.tbl_from_container_unit_all_string_keys
+    ++ addBool u sec Gen.tbl_from_container_unit_bool_keys
+
+/-- security options, devices, capabilities, sysctls, read-only and tmpfs settings -/
+def containerSecurity (E : Env) (u : SUnit) (sec : Str) : List Str :=
+  let bOn (k : String) (args : List Str) : List Str := if (lookupBool u sec (s k)).getD false then args else []
+  let fmt (k : String) (pre : String) : List Str := match lookup u sec (s k) with
+    | some v => if v.isEmpty then [] else [s "--security-opt", s pre ++ v] | none => []
+  let devs := (lookupAllStrv u sec (s "AddDevice")).flatMap fun d =>
+    match d with
+    | '-' :: d' =>
+      let p := match splitOnce ':' d' with | some (a, _) => a | none => d'
+      if E.pathExists p then [s "--device", d'] else []
+    | _ => [s "--device", d]
+  let sec2 := match lookup u sec (s "SeccompProfile") with
+    | some v => if v.isEmpty then [] else [s "--security-opt", s "seccomp=" ++ v] | none => []
+  let ro := lookupBool u sec (s "ReadOnly")
+  bOn "NoNewPrivileges" [s "--security-opt=no-new-privileges"]
+    ++ bOn "SecurityLabelDisable" [s "--security-opt", s "label=disable"]
+    ++ bOn "SecurityLabelNested" [s "--security-opt", s "label=nested"]
+    ++ fmt "SecurityLabelType" "label=type:" ++ fmt "SecurityLabelFileType" "label=filetype:" ++ fmt "SecurityLabelLevel" "label=level:"
+    ++ devs ++ sec2
+    ++ ((lookupAllStrv u sec (s "DropCapability")).flatMap fun c => [s "--cap-drop", lower c])
+    ++ ((lookupAllStrv u sec (s "AddCapability")).flatMap fun c => [s "--cap-add", lower c])
+    ++ ((lookupAllStrv u sec (s "Sysctl")).flatMap fun c => [s "--sysctl", c])
+    ++ (match ro with | some true => [s "--read-only"] | some false => [s "--read-only=false"] | none => [])
+    ++ (if (lookupBool u sec (s "VolatileTmp")).getD false && !(ro.getD false) then [s "--tmpfs", s "/tmp:rw,size=512M,mode=1777"] else [])
+
+def containerAutoUpdate (u : SUnit) (sec : Str) : List Str :=
+  match lookup u sec (s "AutoUpdate") with
+  | some v => if v.isEmpty then [] else [s "--label", s "io.containers.autoupdate=" ++ v] | none => []
+
+/-- the block of published ports, name=value keys and word-list keys -/
+def containerMid (path : Str) (u : SUnit) (sec : Str) : List Str :=
+  publishPorts u sec ++ addKeys "--env" (lookupAllKeyVal u sec (s "Environment"))
+    ++ addKeys "--label" (lookupAllKeyVal u sec (s "Label")) ++ addKeys "--annotation" (lookupAllKeyVal u sec (s "Annotation"))
+    ++ ((lookupAllArgs u sec (s "Mask")).flatMap fun m => [s "--security-opt", s "mask=" ++ m])
+    ++ ((lookupAllArgs u sec (s "Unmask")).flatMap fun m => [s "--security-opt", s "unmask=" ++ m])
+    ++ ((lookupAllArgs u sec (s "EnvironmentFile")).flatMap fun f => [s "--env-file", absFromUnit path f])
+    ++ ((lookupAllArgs u sec (s "Secret")).flatMap fun x => [s "--secret", x])
+
+/-- the image (or root file system) and, last, the words of `Exec=` -/
+def containerTail (u : SUnit) (sec : Str) (image : Str) : List Str :=
+  (if !image.isEmpty then [image] else [s "--rootfs", (lookup u sec (s "Rootfs")).getD []])
+    ++ (match lookupLastValue u sec (s "Exec") with | some raw => splitArgs raw | none => [])
+
 def fromContainer (E : Env) (path : Str) (u : SUnit) : Option (R (SUnit × Option (Str × Str))) :=
   let sec := s "Container"
   let name := fileName path
@@ -665,67 +718,26 @@ def fromContainer (E : Env) (path : Str) (u : SUnit) : Option (R (SUnit × Optio
   if image.isEmpty && rootfs.isEmpty then throw Err.noImageOrRootfs
   if !image.isEmpty && !rootfs.isEmpty then throw Err.imageAndRootfs
   let (image, svc) ← (if !image.isEmpty then handleImageSource E image svc else pure (image, svc) : R (Str × SUnit))
-  let cname := containerName name u
   let svc := addS svc "Service" "Environment" (s "PODMAN_SYSTEMD_UNIT=%n")
   let svc ← killMode svc svc
-  let env := lookupAllKeyVal u sec (s "Environment")
   let svc := addS svc "Unit" "RequiresMountsFor" (s "%t/containers")
   let stop := baseCmd E u sec ++ [s "rm", s "-v", s "-f", s "-i", s "--cidfile=%t/%N.cid"]
   let svc ← addRawExec svc "ExecStop" stop
   let svc ← addRawExec svc "ExecStopPost" (match stop with | a :: r => ('-' :: a) :: r | [] => [])
-  let cmd := baseCmd E u sec ++ [s "run", s "--name", cname, s "--cidfile=%t/%N.cid", s "--replace", s "--rm"]
-    ++ logDriver u sec ++ logOpt u sec
   let svc := addS svc "Service" "Delegate" (s "yes")
-  let cg := match lookup u sec (s "CgroupsMode") with | some c => if c.isEmpty then s "split" else c | none => s "split"
-  let cmd := cmd ++ [s "--cgroups", cg]
-    ++ addString u sec Gen.tbl_from_container_unit_string_keys
-    ++ addAllStrings u sec Gen.tbl_from_container_unit_all_string_keys
-    ++ addBool u sec Gen.tbl_from_container_unit_bool_keys
   let (nets, svc) ← handleNetworks E u sec svc
-  let cmd := cmd ++ nets
-  let (cmd, svc) ← typeAndNotify u sec cmd svc
+  let (cmd, svc) ← typeAndNotify u sec (containerHead E path u sec ++ nets) svc
   let svc := if (lookup u (s "Service") (s "SyslogIdentifier")).isNone then setS svc "Service" "SyslogIdentifier" (s "%N") else svc
-  let bOn (k : String) (args : List Str) : List Str := if (lookupBool u sec (s k)).getD false then args else []
-  let fmt (k : String) (pre : String) : List Str := match lookup u sec (s k) with
-    | some v => if v.isEmpty then [] else [s "--security-opt", s pre ++ v] | none => []
-  let cmd := cmd ++ bOn "NoNewPrivileges" [s "--security-opt=no-new-privileges"]
-    ++ bOn "SecurityLabelDisable" [s "--security-opt", s "label=disable"]
-    ++ bOn "SecurityLabelNested" [s "--security-opt", s "label=nested"]
-    ++ fmt "SecurityLabelType" "label=type:" ++ fmt "SecurityLabelFileType" "label=filetype:" ++ fmt "SecurityLabelLevel" "label=level:"
-  let devs := (lookupAllStrv u sec (s "AddDevice")).flatMap fun d =>
-    match d with
-    | '-' :: d' =>
-      let p := match splitOnce ':' d' with | some (a, _) => a | none => d'
-      if E.pathExists p then [s "--device", d'] else []
-    | _ => [s "--device", d]
-  let sec2 := match lookup u sec (s "SeccompProfile") with
-    | some v => if v.isEmpty then [] else [s "--security-opt", s "seccomp=" ++ v] | none => []
-  let cmd := cmd ++ devs ++ sec2
-    ++ ((lookupAllStrv u sec (s "DropCapability")).flatMap fun c => [s "--cap-drop", lower c])
-    ++ ((lookupAllStrv u sec (s "AddCapability")).flatMap fun c => [s "--cap-add", lower c])
-    ++ ((lookupAllStrv u sec (s "Sysctl")).flatMap fun c => [s "--sysctl", c])
-  let ro := lookupBool u sec (s "ReadOnly")
-  let cmd := cmd ++ (match ro with | some true => [s "--read-only"] | some false => [s "--read-only=false"] | none => [])
-  let cmd := cmd ++ (if (lookupBool u sec (s "VolatileTmp")).getD false && !(ro.getD false) then [s "--tmpfs", s "/tmp:rw,size=512M,mode=1777"] else [])
   let usr ← handleUser u sec
   let maps ← handleUserMappings u sec true
   let (vols, svc) ← handleVolumes E path u sec svc
-  let au := match lookup u sec (s "AutoUpdate") with
-    | some v => if v.isEmpty then [] else [s "--label", s "io.containers.autoupdate=" ++ v] | none => []
   let ports ← (lookupAll u sec (s "ExposeHostPort")).foldlM (fun (acc : List Str) p =>
     let p := trim p
     if Port.isPortRange p then pure (acc ++ [s "--expose", p]) else throw (Err.invalidPort p)) []
-  let cmd := cmd ++ usr ++ maps ++ vols ++ au ++ ports ++ publishPorts u sec ++ addKeys "--env" env
-    ++ addKeys "--label" (lookupAllKeyVal u sec (s "Label")) ++ addKeys "--annotation" (lookupAllKeyVal u sec (s "Annotation"))
-    ++ ((lookupAllArgs u sec (s "Mask")).flatMap fun m => [s "--security-opt", s "mask=" ++ m])
-    ++ ((lookupAllArgs u sec (s "Unmask")).flatMap fun m => [s "--security-opt", s "unmask=" ++ m])
-    ++ ((lookupAllArgs u sec (s "EnvironmentFile")).flatMap fun f => [s "--env-file", absFromUnit path f])
-    ++ ((lookupAllArgs u sec (s "Secret")).flatMap fun x => [s "--secret", x])
   let (mounts, svc) ← (lookupAllArgs u sec (s "Mount")).foldlM (mountsStep E path) ([], svc)
   let (podArgs, svc, link) ← handlePod E u sec svc (serviceFileName self)
-  let cmd := cmd ++ mounts ++ healthArgs u sec ++ podArgs ++ podmanArgs u sec
-    ++ (if !image.isEmpty then [image] else [s "--rootfs", rootfs])
-    ++ (match lookupLastValue u sec (s "Exec") with | some raw => splitArgs raw | none => [])
+  let cmd := cmd ++ containerSecurity E u sec ++ usr ++ maps ++ vols ++ containerAutoUpdate u sec ++ ports
+    ++ containerMid path u sec ++ mounts ++ healthArgs u sec ++ podArgs ++ podmanArgs u sec ++ containerTail u sec image
   let svc ← addRawExec svc "ExecStart" cmd
   pure (svc, link))
 
